@@ -321,7 +321,16 @@ def make_individual_class(R, base):
                 sid = 0
                 if srv is not False and srv is not True:
                     sid = getattr(srv, "id_number", 0)
-                R.step("start", n=iv(self.__dict__.get("node", False)), i=self.__dict__.get("id_number", 0),
+                # a service start sets the date to the current time; release_blocked_individual restores the
+                # original start date of an interrupted, blocked customer: that is not a start
+                sim = self.__dict__.get("simulation", None)
+                kind = "start"
+                try:
+                    if sim is not None and sim is not False and frac(value) != frac(sim.current_time):
+                        kind = "ssrestore"
+                except Exception:
+                    pass
+                R.step(kind, n=iv(self.__dict__.get("node", False)), i=self.__dict__.get("id_number", 0),
                        s=sid, x=R.tk(value, "ss"))
             elif name == "data_records" and type(value) is list:
                 value = RecList(value)
